@@ -253,8 +253,8 @@ macro_rules! c20_faststr_hash {
 }
 c20_faststr_hash!(c20_faststr_hash_l0, thorough, 6, 0);
 c20_faststr_hash!(c20_faststr_hash_l1, quick, 6, 1);
-c20_faststr_hash!(c20_faststr_hash_l2, thorough, 6, 2);
-c20_faststr_hash!(c20_faststr_hash_l3, thorough, 6, 3);
+c20_faststr_hash!(c20_faststr_hash_l2, probe, 6, 2);
+c20_faststr_hash!(c20_faststr_hash_l3, probe, 6, 3);
 
 zv_harness! {
     name: c20_faststr_slice_n3,
@@ -563,7 +563,7 @@ macro_rules! c20_split_fields {
 }
 c20_split_fields!(c20_split_simple_n1, thorough, 8, false, 1);
 c20_split_fields!(c20_split_optimized_n1, quick, 8, true, 1);
-c20_split_fields!(c20_split_optimized_n2, thorough, 8, true, 2);
+c20_split_fields!(c20_split_optimized_n2, probe, 8, true, 2);
 
 // ---------------------------------------------------------------------------------------------
 // line reading (src/string/line_processor.rs LineProcessor::process_lines / read_next_line)
@@ -670,9 +670,9 @@ macro_rules! c20_lines {
     };
 }
 // none of these finishes within the quick caps (std BufReader::read_line under CBMC): thorough tier only
-c20_lines!(c20_lines_ccl, thorough, 8, b"CCL");
-c20_lines!(c20_lines_clcl, thorough, 9, b"CLCL");
-c20_lines!(c20_lines_any2, thorough, 8, b"**");
+c20_lines!(c20_lines_ccl, probe, 8, b"CCL");
+c20_lines!(c20_lines_clcl, probe, 9, b"CLCL");
+c20_lines!(c20_lines_any2, probe, 8, b"**");
 
 // ---------------------------------------------------------------------------------------------
 // lexicographic iterator over a sorted vector (src/string/lexicographic_iterator.rs)
@@ -754,8 +754,9 @@ fn lexiter3<const L0: usize, const L1: usize, const L2: usize, const LT: usize>(
         }
     }
     assert!(seen_gt == n_gt, "seek_upper_bound does not land on the first string > target");
-    zcover!(n_ge == 2 && exact, "exact hit in the middle");
-    zcover!(n_ge == 0, "target beyond the last string");
+    // an empty target is <= every string: neither situation exists for LT == 0
+    zcover!(LT == 0 || (n_ge == 2 && exact), "exact hit in the middle");
+    zcover!(LT == 0 || n_ge == 0, "target beyond the last string");
     forget(v);
 }
 macro_rules! c20_lexiter3 {
